@@ -121,7 +121,9 @@ impl Selector {
                     }
                     _ => false,
                 },
-                SelectorComponent::Star => Self::do_matches(&comps[1..], node),
+                SelectorComponent::Star => {
+                    matches!(node.data, Element { .. }) && Self::do_matches(&comps[1..], node)
+                }
                 SelectorComponent::CombChild => {
                     if let Some(parent) = node.get_parent() {
                         Self::do_matches(&comps[1..], &parent)
